@@ -20,14 +20,14 @@ package ch
 // ---------------------------------------------------------------------------
 // C04 / C10: closing, flushing a private buffer, cancelling
 
-//@ contract (c *Client) Close() (err) props(C04,C10,C11)
+//@ contract (c *Client) Close() (err) props(C04,C10,C11,C12)
 //@   requires c != nil
 //@   modifies c.closed, c.mux, c.conn.closed, c.conn.closes
 //@   ensures c.closed {closed-after}
 //@   ensures old(c.closed) ==> err != nil && c.conn.closes == old(c.conn.closes) {closed-client-does-not-touch-conn}
 //@   ensures !old(c.closed) ==> c.conn.closed && c.conn.closes == old(c.conn.closes) + 1 {closes-conn-once}
 
-//@ contract (c *Client) IsClosed() (r) props(C04,C10,C11)
+//@ contract (c *Client) IsClosed() (r) props(C04,C10,C11,C12)
 //@   requires c != nil
 //@   modifies c.mux
 //@   ensures r == c.closed
@@ -43,7 +43,7 @@ package ch
 //@   ensures forall k in 0..old(c.conn.olen) :: c.conn.out[k] == old(c.conn.out[k]) {earlier-output-untouched}
 
 //@ -- cancelQuery writes exactly the one-byte Cancel packet (best effort) and always closes
-//@ contract (c *Client) cancelQuery() (err) props(C04,C10)
+//@ contract (c *Client) cancelQuery() (err) props(C04,C10,C12)
 //@   requires c != nil
 //@   modifies c.closed, c.mux, c.conn.closed, c.conn.closes, c.conn.out, c.conn.olen
 //@   ensures c.closed {always-closes}
@@ -59,7 +59,7 @@ package ch
 //@ -- the cancel-watch goroutine of Do: when the query's context ended and no server exception was
 //@ -- received, it cancels the query (Cancel packet, best effort) and closes the connection, and
 //@ -- reports an error; otherwise it does nothing.
-//@ contract (c *Client) Do$6() (err) props(C04,C10)
+//@ contract (c *Client) Do$6() (err) props(C04,C10,C12)
 //@   requires *c != nil && *ctx != nil
 //@   modifies all(*c), all(*ctx)
 //@   ensures ctx.cancelled && !gotException.val ==> c.closed && err != nil {cancelled-closes-and-fails}
@@ -74,7 +74,7 @@ package ch
 //@ ghost field (Client) addendum Bool
 //@ valid (c *Client): c != nil ==> c.writer != nil && c.reader != nil && c.writer.buf != nil && c.writer.conn != nil
 
-//@ contract (c *Client) flush(ctx) (err) props(C02,C04,C13)
+//@ contract (c *Client) flush(ctx) (err) props(C02,C04,C13,C09)
 //@   requires c != nil && ctx != nil && wRI(c.writer)
 //@   modifies all(c.writer), all(ctx), all(c.conn)
 //@   ensures err == nil ==> len(c.writer.vec) == 0 && c.writer.bufOffset == 0 && len(c.writer.buf.Buf) == 0 {flushed-and-reset}
@@ -99,11 +99,18 @@ package ch
 //@   requires c != nil
 //@   modifies all(c.reader)
 //@   ensures err == nil ==> e != nil {exception-decoded}
+//@ -- the whole chain is handed on: the first decoded exception becomes the head, every further one
+//@ -- (each announced by the Nested flag of its predecessor) one entry of Next, in order, nothing else
+//@   ensures [internal] err == nil ==> len(list) >= 1 && len(e.Next) == len(list) - 1 [C03] {one-entry-per-nested-cause}
+//@   ensures [internal] err == nil ==> e.Code == list[0].Code [C03] {head-is-the-first-exception}
+//@   ensures [internal] err == nil ==> forall j in 0..len(e.Next) :: e.Next[j].Code == list[1 + j].Code [C03] {causes-in-server-order}
 //@ loop 0 (list)
 //@   modifies all(c.reader)
 //@   invariant len(list) >= 0
 //@ loop 1 (rangeindex)
+//@   modifies e.Next, contents(e.Next)
 //@   invariant -1 <= rangeindex && rangeindex < len(list) - 1
+//@   invariant len(e.Next) == rangeindex + 1 && forall j in 0..len(e.Next) :: e.Next[j].Code == list[1 + j].Code [C03]
 
 //@ -- the addendum may only be written when the NEGOTIATED revision has it
 //@ contract (c *Client) encodeAddendum() props(C13)
